@@ -23,9 +23,12 @@ META = dict(
                "rule. With mix = torch.where (proposed repair) this holds for all values incl. inf/NaN; for the code's "
                "old*mask+cur*~mask it is proved on finite values only and refuted otherwise (finding F2, witness replayed).",
     level_note="Trusted: Coq kernel (all theorems closed under the global context); the hand-written State model's tie is the executed "
-               "correspondence (toy graphs as real LinkedVariables, exact integers/inf/NaN); WF g is a hypothesis (C15) recomputed by "
-               "wf_b on every graph of the tie; F_mix (row-wise node functions, C07) is a hypothesis, proved for one-parent entry-wise "
-               "toy functions and validated by execution on multi-parent toy graphs and, bit-for-bit, on the real model graphs; "
+               "correspondence (toy graphs as real LinkedVariables, exact integers/inf/NaN); WF g is a hypothesis of the generic theorems, PROVED from C15's theorems for every graph built by the "
+               "modelled DAG constructor (C02_full_revert_built, C02_pop_step_built) and recomputed by wf_b on every graph of the tie; "
+               "F_mix (row-wise node functions) is PROVED from C07's op-kind semantics for every op-kind and any number of parents "
+               "(C02_F_mix_opkinds) and for one-parent entry-wise toy functions, and the closure condition on the reads follows from the "
+               "well_typed checker (C02_partial_revert_well_typed, C02_ind_step_well_typed: docs/Compose.md); for other node functions "
+               "F_mix stays a hypothesis, validated by execution on multi-parent toy graphs and, bit-for-bit, on the real model graphs; "
                "is_variable_set on a derived variable is exempt from 'as if never proposed' (it reports cache content); the "
                "one-level undo log of an EARLIER assignment is consumed by a rejection (by design of revert); torch kernels, "
                "deepcopy and REF aliasing under in-place mutation are outside the model (covered by the snapshot oracle only).",
@@ -37,6 +40,11 @@ OBLIGATIONS = [
     "C02_partial_revert", "C02_partial_revert_as_if", "C02_where_is_row_selection", "C02_F_mix_entrywise",
     "C02_partial_revert_finite_partial", "C02_nonfinite_refuted",
     "C02_pop_block_rejected", "C02_pop_block_accepted", "C02_pop_step", "C02_ind_step", "C02_examples",
+    # composition with C15 (graph hypothesis WF discharged for every graph the modelled DAG constructor builds) and with C07
+    # (F_mix proved from the op-kind semantics; axis_read_ok from the well_typed checker): coq/theories/Compose, docs/Compose.md
+    "C02_full_revert_built", "C02_pop_step_built", "C02_opkind_functions_commute_with_selection", "C02_F_mix_opkinds",
+    "C02_axis_closed_well_typed", "C02_partial_revert_well_typed", "C02_partial_revert_as_if_well_typed",
+    "C02_ind_step_well_typed", "C02_later_history_opkinds", "C02_compose_examples",
 ]
 
 HEADER = ("From Coq Require Import ZArith List Bool.\n"
